@@ -240,3 +240,29 @@ theorem bitsToNat_map_false {α : Type} (l : List α) : bitsToNat (l.map fun _ =
   | cons a l ih => simp [bitsToNat, ih]
 
 end Litex.Ecc
+
+namespace Litex.Ecc
+
+/-! ### number view used by the driver / the harness (signals travel as decimal numbers) -/
+
+theorem natToBits_length (w x : Nat) : (natToBits w x).length = w := by simp [natToBits]
+
+theorem bitsToNat_natToBits (w x : Nat) (hx : x < 2 ^ w) : bitsToNat (natToBits w x) = x :=
+  bitsToNat_map_testBit w x hx
+
+theorem getD_flipAt (w : Word) (j i : Nat) (hj : j < w.length) :
+    (flipAt w j).getD i false = (w.getD i false ^^ decide (j = i)) := by
+  unfold flipAt
+  simp only [List.getD_eq_getElem?_getD, List.getElem?_set]
+  by_cases h : j = i
+  · subst h; simp [hj]
+  · simp [h]
+
+/-- `flipAt w j` is `w ^ (1 << j)` on the signal's value. -/
+theorem bitsToNat_flipAt (w : Word) (j : Nat) (hj : j < w.length) :
+    bitsToNat (flipAt w j) = bitsToNat w ^^^ 2 ^ j := by
+  apply Nat.eq_of_testBit_eq
+  intro i
+  rw [bitsToNat_testBit, getD_flipAt w j i hj, Nat.testBit_xor, bitsToNat_testBit, Nat.testBit_two_pow]
+
+end Litex.Ecc
